@@ -461,6 +461,13 @@ func runC08(c *ctx) {
 		delete(stub.res, stubKey{xdsresource.ListenerType, svcName})
 		if listenerPresent {
 			stub.res[stubKey{xdsresource.ListenerType, svcName}] = lis
+			if g.r.chance(10) {
+				// the listener is replaced right after it has been read: one call is routed by ONE state of its listener
+				// (the one it read), never by a mixture of the old Thrift routes and the new HTTP routes
+				swapped := &gRoute{Kind: "http", Prefix: "/", Clusters: [][2]interface{}{{"from-the-replaced-listener", 1}}, TimeoutMs: 999}
+				stub.afterGet = map[stubKey]interface{}{{xdsresource.ListenerType, svcName}: buildListener([]*gFilter{{Inline: &gCfg{HasHTTP: true, HTTP: []*gVHost{{Name: "vh", Routes: []*gRoute{swapped}}}}}})}
+				c.count("listener-replaced-after-read", 1)
+			}
 		}
 		for _, nm := range []string{"rc-a", "rc-b"} {
 			delete(stub.res, stubKey{xdsresource.RouteConfigType, nm})
